@@ -197,8 +197,15 @@ def observe(real, model, was_done, hist):
 
 
 def run_sequence(ops):
+    from ..detsched import inline_patched
+    with inline_patched():
+        return _run_sequence(ops)
+
+
+def _run_sequence(ops):
     """ops: list of op letters; disabled ops (A before terminal) are
-    skipped.  Returns (violation or None, info)."""
+    skipped.  Returns (violation or None, info).  Runs on the inline shim:
+    an operation that would block forever raises WouldBlock."""
     real = Real()
     model = Model()
     was_done = False
